@@ -529,6 +529,10 @@ def fields_dedup():
     got = (t.x == v.x).fields_()
     if len(got) != 2:
         return f"(t.x == v.x).fields_() == {got!r}: two distinct (table, column) references, {len(got)} element(s)"
+    a, b = Table("t", schema="s1"), Table("t", schema="s2")
+    got = (a.x == b.x).fields_()
+    if len(got) != 2:
+        return f"(s1.t.x == s2.t.x).fields_() has {len(got)} element(s): the tables differ by schema"
     return None
 
 
